@@ -678,3 +678,62 @@ impl BsUnit {
             })
     }
 }
+
+/// Verification hook (cargo feature `verif`): a line row exactly as stored in [`BsUnit::lines`].
+#[cfg(feature = "verif")]
+#[derive(Debug, Clone, PartialEq, Eq)]
+pub struct VerifLineRow {
+    pub address: u64,
+    pub file_index: u64,
+    pub line: u64,
+    pub column: u64,
+    pub is_stmt: bool,
+    pub prologue_end: bool,
+    pub epilogue_begin: bool,
+    pub end_sequence: bool,
+}
+
+#[cfg(feature = "verif")]
+impl BsUnit {
+    /// Line rows in stored order (the order all lookups work on).
+    pub fn verif_line_rows(&self) -> Vec<VerifLineRow> {
+        self.lines
+            .iter()
+            .map(|l| VerifLineRow {
+                address: l.address,
+                file_index: l.file_index,
+                line: l.line,
+                column: l.column,
+                is_stmt: l.is_stmt(),
+                prologue_end: l.prolog_end(),
+                epilogue_begin: l.epilog_begin(),
+                end_sequence: l.end_sequence(),
+            })
+            .collect()
+    }
+
+    /// All indexed functions of the unit, ordered by DIE offset.
+    /// Note: this method requires a full unit.
+    pub fn verif_functions(&self) -> UnitResult<Vec<(UnitOffset, &FunctionInfo)>> {
+        match self.lazy_part.get() {
+            None => UnitResult::Reload,
+            Some(additional) => {
+                let mut fns: Vec<_> = additional
+                    .function_index
+                    .iter()
+                    .map(|(off, info)| (*off, info))
+                    .collect();
+                fns.sort_unstable_by_key(|(off, _)| off.0);
+                UnitResult::Ok(fns)
+            }
+        }
+    }
+}
+
+#[cfg(feature = "verif")]
+impl PlaceDescriptor<'_> {
+    /// Index (in the unit registry) of the unit this place belongs to.
+    pub fn verif_unit_idx(&self) -> usize {
+        self.unit.idx()
+    }
+}
